@@ -19,7 +19,8 @@ import (
 type frozen struct {
 	st    *state.StateDB
 	m     *model
-	label string // which side of a Copy was set aside
+	label string // which side of a Copy was set aside, or "twin"
+	fresh bool   // set aside by the operation in progress: not to be read yet
 }
 
 type committed struct {
@@ -420,6 +421,20 @@ func (r *runner) reopen(root common.Hash, mode string) bool {
 	r.m.reopened(mode == "copy")
 	r.ids = nil
 	r.sawReopen = true
+	if mode == "same" || mode == "reset" {
+		// a second handle on the same root from the same caching database, left
+		// unread and kept alive: whatever the continuing handle flushes later must
+		// not show through it
+		twin, err := state.New(root, r.sdb)
+		if err != nil {
+			r.violate("reopened_state_differs", opk, "open_error", err.Error())
+			return false
+		}
+		tm := r.m.clone()
+		tm.clearLabels()
+		r.pushFrozen(frozen{st: twin, m: tm, label: "twin", fresh: true})
+		r.c.Count("reopen_twin_kept_live")
+	}
 	vst := st
 	if r.cs.Mode == "sparse" {
 		if vst, err = open(); err != nil {
@@ -557,6 +572,9 @@ func (r *runner) exec() {
 			if ev.revertAcrossSuicideRecreated {
 				c.Count("revert_across_suicide_of_recreated")
 			}
+			if ev.revertToClearedSlot {
+				c.Count("revert_to_pending_clear_of_trie_slot")
+			}
 			clause = "revert_not_exact"
 			full = r.cs.Mode != "sparse" || i%2 == 0
 		case "finalise":
@@ -670,7 +688,7 @@ func (r *runner) exec() {
 }
 
 func (r *runner) pushFrozen(f frozen) {
-	if len(r.frozen) >= 3 {
+	if len(r.frozen) >= 4 {
 		r.frozen = r.frozen[1:]
 	}
 	r.frozen = append(r.frozen, f)
@@ -678,9 +696,21 @@ func (r *runner) pushFrozen(f frozen) {
 
 // checkFrozen: a state set aside at a Copy must still read as it did then.
 func (r *runner) checkFrozen(when string) {
-	for _, f := range r.frozen {
+	for i := range r.frozen {
+		f := &r.frozen[i]
 		if r.failed {
 			return
+		}
+		if f.fresh {
+			// a twin opened by the commit in progress stays unread until the
+			// continuing handle has flushed something
+			f.fresh = false
+			continue
+		}
+		if f.label == "twin" {
+			r.c.Count("reopen_twin_rechecked")
+			r.checkAll(f.st, f.m, "reopened_state_not_independent", "twin_"+when)
+			continue
 		}
 		r.c.Count("copy_independence_checked")
 		r.checkAll(f.st, f.m, "copy_not_independent", "copy_"+f.label+"_"+when)
